@@ -255,6 +255,46 @@ def c9_three(i0: int, i1: int, i2: int, same_y: bool, neg_first: bool) -> bool:
     return (not r) or (r.bindings["x"] is v["a"] and r.bindings["y"] is v["b"])
 
 
+# ---------------------------------------------------------------- class 10: backtracking OR sharing a variable with its context
+P10 = RR.Pattern(lambda op, x: op.Add(x, PI.OrValue([op.Mul(x, 2.0), op.Mul(2.0, x)])))
+P10b = RR.Pattern(lambda op, x, y: op.Add(x, PI.OrValue([op.Neg(y), y])))
+
+
+def c10_or_shared_var(i1: int, i2: int, same: bool, const_first: bool, is_two: bool) -> bool:
+    """x + (x*2 | 2*x): alternatives have the same op (no dispatch by operator: backtracking); the variable x is bound
+    outside the OR and reused inside it
+    vp-pre: 0 <= i1 < 5 and 0 <= i2 < 5
+    """
+    spec = [("", OPS[i1], ["c", "a" if same else "b"] if const_first else ["a" if same else "b", "c"], [], 1),
+            ("", OPS[i2], ["a", "v0"], [], 1)]
+    m, g, n, v = mk(spec, ["a", "b", "c"], ["v1"])
+    g.inputs.pop()  # c is a free constant value, not a graph input
+    v["c"].const_value = FakeTensor(2.0 if is_two else 3.0, 0)
+    r = P10.match(m, g, n[1])
+    expected = OPS[i1] == "Mul" and OPS[i2] == "Add" and same and is_two
+    if bool(r) != expected:
+        return False
+    return (not r) or r.bindings["x"] is v["a"]
+
+
+def c10b_or_plain_alt(i1: int, i2: int, use_neg: bool) -> bool:
+    """x + (Neg(y) | y): the second alternative is a plain variable
+    vp-pre: 0 <= i1 < 5 and 0 <= i2 < 5
+    """
+    spec = [("", OPS[i1], ["b"], [], 1), ("", OPS[i2], ["a", "v0" if use_neg else "b"], [], 1)]
+    m, g, n, v = mk(spec, ["a", "b"], ["v1", "v0"] if not use_neg else ["v1"])
+    r = P10b.match(m, g, n[1])
+    if OPS[i2] != "Add":
+        return not r
+    if not r:
+        return False
+    if use_neg and OPS[i1] == "Neg":
+        return r.bindings["x"] is v["a"] and r.bindings["y"] is v["b"]
+    if use_neg:
+        return r.bindings["x"] is v["a"] and r.bindings["y"] is v["v0"]
+    return r.bindings["x"] is v["a"] and r.bindings["y"] is v["b"]
+
+
 def _ob(name, timeout=200, bounds="", tt=None):
     d = {"id": f"c06.{name}", "func": name, "timeout": timeout,
          "functions": ["onnxscript.rewriter._matcher:SimplePatternMatcher", "onnxscript.rewriter._rewrite_rule:Pattern.match",
@@ -268,5 +308,5 @@ def _ob(name, timeout=200, bounds="", tt=None):
 
 OBLIGATIONS = [
     _ob("c1_chain", 400, tt=900), _ob("c2_repeated"), _ob("c3_const", 300, "constant value: bounded symbolic index into 12 edge values around rel_tol 1e-5 / abs_tol 1e-8, rank 0..2, const / graph-input flags"),
-    _ob("c4_attrs", 300), _ob("c5_inputs"), _ob("c6_or", 300), _ob("c7_two_outputs"), _ob("c8_commute", 400), _ob("c9_three", 400, tt=900),
+    _ob("c4_attrs", 300), _ob("c5_inputs"), _ob("c6_or", 300), _ob("c7_two_outputs"), _ob("c8_commute", 400), _ob("c9_three", 400, tt=900), _ob("c10_or_shared_var", 300), _ob("c10b_or_plain_alt", 300),
 ]
